@@ -409,7 +409,7 @@ pub fn curated() -> Vec<(&'static str, Case)> {
 // ---------------------------------------------------------------------------------------------------------------
 
 #[derive(Clone, Copy, Debug, PartialEq, Eq)]
-pub enum Inject { HiddenRead, HiddenWrite, Overlap, Cycle, UserPanic }
+pub enum Inject { HiddenRead, HiddenWrite, Overlap, Cycle, UserPanic, SelfRw }
 
 fn task_mentions_res(def: &TaskDef, r: u32) -> bool {
   def.ops.iter().any(|o| match o {
@@ -472,6 +472,24 @@ pub fn inject(rng: &mut Rng, p: &mut Program, what: Inject) -> bool {
       let x = *rng.pick(&cands);
       let k = Kind::Exact; // refines every reader's checker
       insert_conditional(rng, p, x, Op::Write { res: g, expr, via, kind: Some(k), fail: Fail::None }, None);
+    }
+    Inject::SelfRw => {
+      // One task both reads and writes a source (in either order), and some other task reads it without requiring
+      // that task. pie rejects the double access itself; if it did not, the second task's read would be a hidden one.
+      let srcs: Vec<u32> = (0..p.n_res as u32).filter(|r| p.owner[*r as usize].is_none()).collect();
+      if srcs.is_empty() || n < 2 { return false; }
+      let s = *rng.pick(&srcs);
+      let cands: Vec<usize> = (0..n).filter(|t| !p.tasks[*t].ops.iter().any(|o| matches!(o, Op::Write { res, .. } if *res == s))).collect();
+      if cands.is_empty() { return false; }
+      let x = *rng.pick(&cands);
+      if !task_mentions_res(&p.tasks[x], s) {
+        let pos = rng.below(p.tasks[x].ops.len() + 1);
+        p.tasks[x].ops.insert(pos, Op::Read { sel: Sel::Const(s), kind: None, fail_stamp: false });
+      }
+      insert_conditional(rng, p, x, Op::Write { res: s, expr, via, kind: Some(Kind::Exact), fail: Fail::None }, Some(s));
+      let others: Vec<usize> = (0..n).filter(|t| *t != x).collect();
+      let y = *rng.pick(&others);
+      if !task_mentions_res(&p.tasks[y], s) { insert_conditional(rng, p, y, Op::Read { sel: Sel::Const(s), kind: None, fail_stamp: false }, Some(s)); }
     }
     Inject::UserPanic => {
       let j = rng.below(n);
